@@ -213,4 +213,100 @@ def Registry.calendar (month : Int → Int) (r : Registry) (k : String) (a : Cal
   | some c, true => (r, c)
   | _, _ => let c := mkCal month a; (r.set k c, c)
 
+/-! ### calendar OBJECTS: the lazily built table (round k3)
+
+A python `Calendar` is an object whose table (`dt2int` / `int2dt`) is built ONCE, by the first operation that calls `_populate()`
+(_drange.py:381-390), and kept; the registry `calendars` holds such objects.  `CalObj` is a configuration together with the table
+(`none` = not built yet); an operation returns the object afterwards and its answer.  Whether a table built for one registration
+can ever answer for another is a question about these objects (Props/C05 `registry_last_objects`). -/
+
+structure CalObj where
+  cal : Cal
+  tbl : Option (List Int)
+
+namespace CalObj
+
+/-- `Calendar(...)`: no table yet -/
+def fresh (c : Cal) : CalObj := ⟨c, none⟩
+
+/-- `_populate()`: builds the table unless the object has one -/
+def populate (o : CalObj) : CalObj :=
+  match o.tbl with
+  | some _ => o
+  | none => { o with tbl := some o.cal.bdays }
+
+/-- the table an operation reads after `_populate()` -/
+def table (o : CalObj) : List Int :=
+  match o.tbl with
+  | some t => t
+  | none => o.cal.bdays
+
+end CalObj
+
+/-- the operations on a calendar object that the registry histories of the harness use -/
+inductive Use where
+  | isb (t : Int)
+  | adjust (a : Adj) (t : Int)
+  | add (a : Adj) (t n : Int)
+  | bdays (a : Adj) (x y : Int)
+  | drange (x y b : Int)
+  | clock (t : Int)
+
+inductive Ans where
+  | bool (b : Bool)
+  | day (r : Res Int)
+  | days (r : Res (List Int))
+  | idx (r : Res Nat)
+
+/-- one operation on an object: the object afterwards (`add` with `|n| ≤ 1`, `is_bday`, `adjust` do not call `_populate()`) and the answer,
+read from the OBJECT's table -/
+def CalObj.use (o : CalObj) : Use → CalObj × Ans
+  | .isb t => (o, .bool (o.cal.isB t))
+  | .adjust a t => (o, .day (.ok (o.cal.adjust a t)))
+  | .add a t n =>
+      if n.natAbs > 1 then let o' := o.populate; (o', .day (o.cal.addT o'.table a t n))
+      else (o, .day (o.cal.addT [] a t n))
+  | .bdays a x y => let o' := o.populate; (o', .day (o.cal.bdaysBetweenT o'.table a x y))
+  | .drange x y b => let o' := o.populate; (o', .days (o.cal.drangeBT o'.table x y b))
+  | .clock t => let o' := o.populate; (o', .idx (o.cal.clockT o'.table t))
+
+/-- what the same operation answers on the calendar as a value (its own table `c.bdays`) -/
+def Cal.use (c : Cal) : Use → Ans
+  | .isb t => .bool (c.isB t)
+  | .adjust a t => .day (.ok (c.adjust a t))
+  | .add a t n => .day (c.add a t n)
+  | .bdays a x y => .day (c.bdaysBetween a x y)
+  | .drange x y b => .days (c.drangeB x y b)
+  | .clock t => .idx (c.clock t)
+
+abbrev ObjRegistry := List (String × CalObj)
+
+def ObjRegistry.get? (r : ObjRegistry) (k : String) : Option CalObj := (r.find? (·.1 == k)).map (·.2)
+
+def ObjRegistry.set (r : ObjRegistry) (k : String) (o : CalObj) : ObjRegistry :=
+  (k, o) :: r.filter (fun e => !(e.1 == k))
+
+/-- `calendar(key, ...)` on objects: a NEW object (no table) when the key is unknown or any argument is given -/
+def ObjRegistry.calendar (month : Int → Int) (r : ObjRegistry) (k : String) (a : CalArgs) : ObjRegistry × CalObj :=
+  match r.get? k, a.isDefault with
+  | some o, true => (r, o)
+  | _, _ => let o := CalObj.fresh (mkCal month a); (r.set k o, o)
+
+/-- `calendar(k).<op>(…)`: the object is fetched by key and operated on in place — the registry holds the object as the operation left it -/
+def ObjRegistry.useAt (month : Int → Int) (r : ObjRegistry) (k : String) (u : Use) : ObjRegistry × Ans :=
+  let p := r.calendar month k ⟨none, none, none, none⟩
+  let q := p.2.use u
+  (p.1.set k q.1, q.2)
+
+/-- a step of a registry history: a `calendar(k, args…)` call or an operation on the calendar fetched by key -/
+inductive RegOp where
+  | call (k : String) (a : CalArgs)
+  | use (k : String) (u : Use)
+
+def ObjRegistry.step (month : Int → Int) (r : ObjRegistry) : RegOp → ObjRegistry
+  | .call k a => (r.calendar month k a).1
+  | .use k u => (r.useAt month k u).1
+
+def runObj (month : Int → Int) (r : ObjRegistry) (ops : List RegOp) : ObjRegistry := ops.foldl (ObjRegistry.step month) r
+
 end Pyg.Calendar
